@@ -7,6 +7,7 @@ import CallbagModel.Inv.FromIterFull
 import CallbagModel.Inv.MergeFull
 import CallbagModel.Inv.RelayFull
 import CallbagModel.Inv.ShareFull
+import CallbagModel.Inv.ShareWeak
 import CallbagModel.Inv.TakeFull
 /-!
 # C05 — errors are not lost: property theorems (statements only; the invariants are in `Inv/*Full.lean`)
